@@ -585,7 +585,10 @@ pub fn oracle_fieldwise(w: &mut Worker, case: &Case) -> Vec<Violation> {
                 continue;
             }
             if ri.time as i32 != gi.time as i32 || ri.time != gi.time {
-                v.push(Violation { class: cls("time"), detail: format!("{}: requested time {}, read back {}", at, ri.time, gi.time) });
+                // (the requested time is the running sum of the labels in 64 bits; a sum that leaves the
+                //  32-bit range and reads back wrapped is a class of its own: upstream's tests pin it)
+                let wrapped = ri.time != gi.time && (ri.time as i32) as i64 == gi.time;
+                v.push(Violation { class: cls(if wrapped { "time-relative-sum-wraps" } else { "time" }), detail: format!("{}: requested time {}, read back {}", at, ri.time, gi.time) });
             }
             if diff_bits(&ri.diff) != diff_bits(&gi.diff) {
                 v.push(Violation { class: cls("difficulty"), detail: format!("{}: requested {:?}, read back {:?}", at, ri.diff, gi.diff) });
